@@ -15,7 +15,9 @@
  *   env NAME VALUE|-              setenv / unsetenv (HWLOC_FSROOT and HWLOC_CPUID_PATH are set by the recorder itself)
  *   copy <id> <kind> <srcroot>    kind = linux | x86 | x86+linux ; hard-linked copy of the extracted snapshot
  *   remove <relpath>              unlink the file / symlink, or remove the directory subtree, in the copy
- *   load S <filt> <flags>         init; set_all_types_filter(filt) unless filt = -1; set_flags; load
+ *   load S <filt> <flags> [<type> <f>]
+ *                                 init; set_all_types_filter(filt) unless filt = -1; set_type_filter(type, f) if given
+ *                                 (type >= 0); set_flags; load
  *   xml_import SRC DST            export SRC to a buffer; init DST; set_xmlbuffer; set_flags(flags of SRC);
  *                                 set_all_types_filter(KEEP_ALL); load
  *   destroy S
@@ -263,17 +265,19 @@ static void handler(char **lines, size_t n, int beh) {
       hwloc_topology_destroy(topo[s]); topo[s] = NULL;
       out("{\"e\":\"destroy\",\"slot\":%d}", s); out_end();
     } else if (!strcmp(cmd, "load")) {
-      int filt = (int)hwv_tokl(&p); unsigned long fl = (unsigned long)hwv_tokl(&p); int r1 = 0, r2, r0;
+      int filt = (int)hwv_tokl(&p); unsigned long fl = (unsigned long)hwv_tokl(&p); int r1 = 0, r2, r0, tty = -1, tf = -1, r3 = 0;
+      { char *a = hwv_tok(&p), *b = a ? hwv_tok(&p) : NULL; if (a && b) { tty = atoi(a); tf = atoi(b); if (tty < 0) { tty = -1; tf = -1; } } }
       if (topo[s] || !have_copy) continue;
       set_source_env();
       r0 = hwloc_topology_init(&topo[s]);
       if (r0 < 0) { topo[s] = NULL; infra_fail("init", ""); continue; }
       if (filt >= 0) r1 = hwloc_topology_set_all_types_filter(topo[s], (enum hwloc_type_filter_e)filt);
+      if (tty >= 0) r3 = hwloc_topology_set_type_filter(topo[s], (hwloc_obj_type_t)tty, (enum hwloc_type_filter_e)tf);
       r2 = hwloc_topology_set_flags(topo[s], fl);
       errno = 0;
       ret = hwloc_topology_load(topo[s]); err = errno;
       if (ret) { hwloc_topology_destroy(topo[s]); topo[s] = NULL; }
-      out("{\"e\":\"load\",\"slot\":%d,\"filt\":%d,\"flags\":%lu,\"setfilt\":%d,\"setflags\":%d,\"ret\":%d,\"errno\":\"%s\"", s, filt, fl, r1, r2, ret, errname(err));
+      out("{\"e\":\"load\",\"slot\":%d,\"filt\":%d,\"tty\":%d,\"tf\":%d,\"flags\":%lu,\"setfilt\":%d,\"settf\":%d,\"setflags\":%d,\"ret\":%d,\"errno\":\"%s\"", s, filt, tty, tf, fl, r1, r3, r2, ret, errname(err));
       out_slots(1u << s); out("}"); out_end();
       if (check_failed) { hwv_flush(); _exit(77); }
     } else if (!strcmp(cmd, "xml_import")) {
